@@ -37,11 +37,17 @@ Fixpoint leqb {A : Type} (e : A -> A -> bool) (a b : list A) : bool :=
 Definition qleqb := leqb (leqb Z.eqb).
 Definition mleqb := leqb qleqb.
 Definition zI4 (x : list (list (list (list Z)))) : list (list matrix) := map (map zmat) x.
-Definition com_case (Rn Cn H W : nat) (mask : option (list (list Z))) (x : list (list (list (list Z)))) :=
+Definition req_b (a b : list (list Q) * list (list Q)) : bool :=
+  mleqb (showm (fst a)) (showm (fst b)) && mleqb (showm (snd a)) (showm (snd b)).
+Definition com_case (Rn Cn H W : nat) (m : option matrix) (x : list (list (list (list Z)))) :=
   let I4 := zI4 x in
-  let m := option_map zmat mask in
   let v := com_vectorised H W m I4 in
   let l := com_looped Rn Cn H W m I4 in
+  let v0 := com_vectorised H W None I4 in
+  (* the call history the harness replays on ONE array (C18_com_history_independent) *)
+  let hist := com_history (com_step Rn Cn H W) I4
+                [ComCall false m; ComCall true m; ComCall false m; ComCall true None; ComCall false None] in
+  let hist_ok := leqb req_b hist [v; v; v; v0; v0] in
   let flat := concat (map (map (apply_mask m)) I4) in
   let n := length flat in
   let o1 := calculate_origin 1 H W flat in
@@ -51,13 +57,31 @@ Definition com_case (Rn Cn H W : nat) (mask : option (list (list Z))) (x : list 
   (showm (fst v), showm (snd v),
    (mleqb (showm (fst l)) (showm (fst v)) && mleqb (showm (snd l)) (showm (snd v)),
     all_b,
-    qleqb (showol (fst o1)) (concat (showm (fst v))) && qleqb (showol (snd o1)) (concat (showm (snd v))))).
+    qleqb (showol (fst o1)) (concat (showm (fst v))) && qleqb (showol (snd o1)) (concat (showm (snd v))),
+    hist_ok),
+   (showm (fst v0), showm (snd v0))).
 Definition shift_case (H W : nat) (cy cx : Z) (pats : list (Z * Z * list (list Z))) :=
   (map (fun t => let '(oy, ox, pat) := t in
-                 showm (shift_pattern H W (qz oy) (qz ox) (qz cy) (qz cx) (zmat pat))) pats,
+                 showm (shift_pattern_r H W (qz oy) (qz ox) (qz cy) (qz cx) (zmat pat))) pats,
    forallb (fun t => let '(oy, ox, pat) := t in
-                     mleqb (showm (shift_pattern H W (qz oy) (qz ox) (qz cy) (qz cx) (zmat pat)))
+                     mleqb (showm (shift_pattern_r H W (qz oy) (qz ox) (qz cy) (qz cx) (zmat pat)))
                            (showm (roll2 (- (oy - cy)) (- (ox - cx)) (zmat pat)))) pats).
+(* non-integer shifts: origins in units of 1/den; second component: the entries the seam
+   theorem C18_shift_general_exact speaks about, evaluated through seam_bilinear *)
+Definition fshift_case (H W : nat) (den : positive) (cy cx : Z) (pats : list (Z * Z * list (list Z))) :=
+  map (fun t => let '(oy, ox, pat) := t in
+         let I := zmat pat in
+         let sp := shift_pattern_r H W (oy # den) (ox # den) (qz cy) (qz cx) I in
+         let sm := map (fun y => map (fun x =>
+                     seam_bilinear H W I (qmod (Qn y + ((oy # den) - qz cy)) (Qn H))
+                                         (qmod (Qn x + ((ox # den) - qz cx)) (Qn W))) (seq 0 W)) (seq 0 H) in
+         (showm sp, mleqb (showm sp) (showm sm))) pats.
+Definition fam_case (pp : Q * Q * Q) (pq : Q * Q * Q * Q * Q * Q)
+                    (pb : (Q * Q * Q) * (Q * Q * Q) * (Q * Q * Q)) (Rn Cn : nat) :=
+  let grid (f : nat -> nat -> Q) := map (fun r => map (fun c => showq (f r c)) (seq 0 Cn)) (seq 0 Rn) in
+  (grid (plane_fn pp), grid (parabola_fn pq), grid (bezier2_fn pb),
+   (mleqb (grid (parabola_fn (parabola_of_plane pp))) (grid (plane_fn pp)),
+    mleqb (grid (bezier2_fn (bezier2_of_parabola pq))) (grid (parabola_fn pq)))).
 Definition plane_case (pts : list P3) (n : P3) :=
   map (fun p => showq (plane_fitted pts n (px p) (py p))) pts.
 """
@@ -127,16 +151,23 @@ def agrees(v: float, fr: Fraction) -> bool:
 # ------------------------------------------------------------------------------------------
 # running the implementation
 
-def _dataset(I4):
+def _dataset(I4, dtype="float32"):
     from quantem.core.datastructures import Dataset4dstem
-    return Dataset4dstem.from_array(np.array(I4, dtype=np.float32), sampling=(1, 1, 1, 1),
+    return Dataset4dstem.from_array(np.array(I4, dtype=np.dtype(dtype)), sampling=(1, 1, 1, 1),
                                     units=("A", "A", "A^-1", "A^-1"))
 
 
-def run_origin_model(I4, batches):
+def mask_array(case):
+    """the detector mask of a case as float32 (entries mask / mask_den), or None"""
+    if case.get("mask") is None:
+        return None
+    return (np.array(case["mask"], dtype=np.float64) / case.get("mask_den", 1)).astype(np.float32)
+
+
+def run_origin_model(I4, batches, dtype="float32"):
     """CenterOfMassOriginModel.calculate_origin for each batch size -> {b: (n,2) float32 array}"""
     from quantem.diffractive_imaging.origin_models import CenterOfMassOriginModel
-    om = CenterOfMassOriginModel.from_dataset(_dataset(I4))
+    om = CenterOfMassOriginModel.from_dataset(_dataset(I4, dtype))
     out = {}
     for b in batches:
         om.calculate_origin(b)
@@ -144,10 +175,10 @@ def run_origin_model(I4, batches):
     return out
 
 
-def run_dataset_model(I4, mask, vectorised, fit_function="none", via_preprocess=False):
+def run_dataset_model(I4, mask, vectorised, fit_function="none", via_preprocess=False, dtype="float32"):
     """PtychographyDatasetRaster._set_intensities_com -> (com_measured, com_fit) each (2,R,C)"""
     from quantem.diffractive_imaging.dataset_models import PtychographyDatasetRaster
-    ds = PtychographyDatasetRaster.from_dataset4dstem(_dataset(I4), verbose=0)
+    ds = PtychographyDatasetRaster.from_dataset4dstem(_dataset(I4, dtype), verbose=0)
     if via_preprocess:
         assert mask is None
         ds.preprocess(com_fit_function=fit_function, plot_rotation=False, plot_com=False, probe_energy=80e3,
@@ -157,6 +188,23 @@ def run_dataset_model(I4, mask, vectorised, fit_function="none", via_preprocess=
                                 dp_mask=None if mask is None else np.array(mask, dtype=np.float32),
                                 fit_function=fit_function, vectorized_calculation=vectorised)
     return np.array(ds.com_measured), np.array(ds.com_fit)
+
+
+def run_history(I4, mask, dtype="float32"):
+    """The call history [looped(m), vectorised(m), looped(m), vectorised(None), looped(None)] of
+    _set_intensities_com on ONE dataset and the ONE array the caller keeps (as preprocess does with
+    self.intensities_4d).  -> list of (label, com_measured (2,R,C), caller's array still unchanged)"""
+    from quantem.diffractive_imaging.dataset_models import PtychographyDatasetRaster
+    ds = PtychographyDatasetRaster.from_dataset4dstem(_dataset(I4, dtype), verbose=0)
+    arr = ds.intensities_4d
+    orig = np.array(arr, copy=True)
+    out = []
+    for vec, m in ((False, mask), (True, mask), (False, mask), (True, None), (False, None)):
+        ds._set_intensities_com(arr, dp_mask=None if m is None else np.array(m, dtype=np.float32),
+                                fit_function="none", vectorized_calculation=vec)
+        out.append(("%s(%s)" % ("vectorised" if vec else "looped", "mask" if m is not None else "no mask"),
+                    np.array(ds.com_measured), bool(np.array_equal(np.asarray(arr), orig))))
+    return out
 
 
 def reference_com(I4, mask):
@@ -179,12 +227,48 @@ def gen_pattern(r, H, W, mask, pow2):
     for _ in range(r.randint(0, 3)):          # a few hot pixels: asymmetric patterns
         p[r.randrange(H)][r.randrange(W)] += r.randint(20, 300)
     if pow2:                                   # masked total a power of two -> CoM dyadic
+        # weights in mask units (1 for a 0/1 mask, quarters for a fractional one)
         live = [(i, j) for i in range(H) for j in range(W) if mask is None or mask[i][j]]
-        s = sum(p[i][j] for i, j in live)
+        wt = (lambda i, j: 1) if mask is None else (lambda i, j: mask[i][j])
+        s = sum(p[i][j] * wt(i, j) for i, j in live)
         tgt = 1 << max(1, (s - 1).bit_length())
-        i, j = r.choice(live)
-        p[i][j] += tgt - s
+        unit = [(i, j) for i, j in live if (tgt - s) % wt(i, j) == 0]
+        if unit:
+            i, j = r.choice(unit)
+            p[i][j] += (tgt - s) // wt(i, j)
     return p
+
+
+def gen_mask(r, H, W):
+    """-> (mask, mask_den, kind): random 0/1; 0/1 with a fully masked INTERIOR row and/or column (dead
+    stripe of a segmented detector); fractional (quarters, exact in float32)"""
+    kind = r.choice(["binary", "binary", "stripe", "stripe", "quarter", "quarter"])
+    if kind == "stripe" and max(H, W) < 3:
+        kind = "binary"
+    while True:
+        if kind == "quarter":
+            mask = [[r.choice([0, 1, 2, 3, 4, 4, 4]) for _ in range(W)] for _ in range(H)]
+            den = 4
+            if all(v in (0, 4) for row in mask for v in row):
+                continue
+        else:
+            mask = [[1 if r.random() < (0.7 if kind == "binary" else 0.85) else 0 for _ in range(W)] for _ in range(H)]
+            den = 1
+            if kind == "stripe":
+                done = False
+                if H >= 3 and r.random() < 0.7:
+                    mask[r.randint(1, H - 2)] = [0] * W
+                    done = True
+                if W >= 3 and (not done or r.random() < 0.5):
+                    j = r.randint(1, W - 2)
+                    for row in mask:
+                        row[j] = 0
+                # the rows / columns around the stripe stay active
+                if not (any(mask[0]) and any(mask[-1]) and any(row[0] for row in mask) and any(row[-1] for row in mask)):
+                    continue
+        sm = sum(map(sum, mask))
+        if 0 < sm < H * W * den:
+            return mask, den, kind
 
 
 def gen_com_case(r, quick=True):
@@ -192,30 +276,37 @@ def gen_com_case(r, quick=True):
     dets = [(2, 3), (3, 2), (3, 5), (5, 3), (4, 6), (5, 7), (7, 4), (2, 5), (1, 4), (4, 1), (3, 3), (6, 5)]
     Rn, Cn = r.choice(shapes if quick else shapes + [(5, 4), (4, 6)])
     H, W = r.choice(dets)
-    mask = None
-    if r.random() < 0.45 and H * W > 1:
-        while True:
-            mask = [[1 if r.random() < 0.7 else 0 for _ in range(W)] for _ in range(H)]
-            s = sum(map(sum, mask))
-            if 0 < s < H * W:
-                break
+    mask, den, mkind = None, 1, "none"
+    if r.random() < 0.55 and H * W > 1:
+        mask, den, mkind = gen_mask(r, H, W)
     pow2 = r.random() < 0.4
     I4 = [[gen_pattern(r, H, W, mask, pow2) for _ in range(Cn)] for _ in range(Rn)]
-    return {"kind": "com", "Rn": Rn, "Cn": Cn, "H": H, "W": W, "mask": mask, "pow2": pow2, "I4": I4}
+    if pow2 and mask is not None:      # the adjustment may have been impossible for a fractional mask
+        tot = [sum(p[i][j] * mask[i][j] for i in range(H) for j in range(W)) for row in I4 for p in row]
+        pow2 = all(t & (t - 1) == 0 for t in tot)
+    return {"kind": "com", "Rn": Rn, "Cn": Cn, "H": H, "W": W, "mask": mask, "mask_den": den, "mask_kind": mkind,
+            "dtype": r.choice(["float32", "float32", "uint16", "float64"]), "pow2": pow2, "I4": I4}
 
 
 def com_impl(case):
     """all implementation observables of one CoM case"""
-    I4, mask = case["I4"], case["mask"]
+    I4, mask = case["I4"], mask_array(case)
+    dt = case.get("dtype", "float32")
     n = case["Rn"] * case["Cn"]
-    masked = (np.array(I4, dtype=np.float32) * (1 if mask is None else np.array(mask, dtype=np.float32))).tolist()
+    masked = np.array(I4, dtype=np.float32) * (1 if mask is None else mask)
     batches = list(range(1, n + 2)) + [None]
-    obs = {"origin": run_origin_model(masked, batches)}
-    obs["vec"] = run_dataset_model(I4, mask, True)[0]
-    obs["loop"] = run_dataset_model(I4, mask, False)[0]
+    # the origin model has no mask argument: it gets the masked patterns (exact products; kept in the
+    # case's dtype when they are integers)
+    integral = bool(np.all(masked == np.round(masked)))
+    obs = {"origin": run_origin_model(masked.tolist(), batches, dt if integral else "float32")}
+    obs["vec"] = run_dataset_model(I4, mask, True, dtype=dt)[0]
+    obs["loop"] = run_dataset_model(I4, mask, False, dtype=dt)[0]
     if mask is None:
-        obs["vec_pre"] = run_dataset_model(I4, None, True, via_preprocess=True)[0]
-        obs["loop_pre"] = run_dataset_model(I4, None, False, via_preprocess=True)[0]
+        obs["vec_pre"] = run_dataset_model(I4, None, True, via_preprocess=True, dtype=dt)[0]
+        obs["loop_pre"] = run_dataset_model(I4, None, False, via_preprocess=True, dtype=dt)[0]
+    else:
+        obs["vec_nomask"] = run_dataset_model(I4, None, True, dtype=dt)[0]
+    obs["history"] = run_history(I4, mask, dt)
     return obs
 
 
@@ -223,7 +314,7 @@ def com_oracle(case, obs):
     """the property text evaluated on the implementation's output -> list of (key, what)"""
     bad = []
     Rn, Cn = case["Rn"], case["Cn"]
-    ref_r, ref_c = reference_com(case["I4"], case["mask"])
+    ref_r, ref_c = reference_com(case["I4"], mask_array(case))
     ref = np.stack([ref_r, ref_c])                       # (2, R, C): row then column
     tol = TOL_REL * np.maximum(np.abs(ref), 1.0)
 
@@ -262,12 +353,30 @@ def com_oracle(case, obs):
     if not np.all(np.abs(om - obs["vec"].astype(np.float64)) <= tol):
         bad.append(("com-models-disagree", "origin model and dataset model disagree: %s vs %s"
                     % (show(om), show(obs["vec"]))))
+    # one array, several calls: "independent of whether the vectorised or the looped code path is used"
+    # must also hold for the path used BEFORE on the same data
+    fresh_none = obs.get("vec_nomask", obs["vec"])
+    for k, (label, cm, untouched) in enumerate(obs.get("history", [])):
+        if not untouched:
+            bad.append(("com-looped-mutates-input",
+                        "_set_intensities_com altered the caller's intensities array (call %d of the history %s: %s); "
+                        "the dataset no longer holds the measured patterns"
+                        % (k + 1, [h[0] for h in obs["history"]], label)))
+            break
+    for k, (label, cm, untouched) in enumerate(obs.get("history", [])):
+        want = obs["vec"] if "(mask)" in label else fresh_none
+        if not np.array_equal(cm, want):
+            bad.append(("com-history-dependence",
+                        "call %d (%s) of the history %s on one array returns com_measured %s, but the same call on "
+                        "untouched data returns %s" % (k + 1, label, [h[0] for h in obs["history"]], show(cm), show(want))))
+            break
     return bad
 
 
 def com_expr(case):
     from ..common import cnat
-    m = "None" if case["mask"] is None else "(Some %s%%Z)" % c2(case["mask"])
+    m = "None" if case["mask"] is None else "(Some (%s %s%%Z))" % (
+        "qmat4" if case.get("mask_den", 1) == 4 else "zmat", c2(case["mask"]))
     return "com_case %s %s %s %s %s %s" % (cnat(case["Rn"]), cnat(case["Cn"]), cnat(case["H"]), cnat(case["W"]),
                                            m, c4(case["I4"]))
 
@@ -275,22 +384,33 @@ def com_expr(case):
 def com_correspond(case, obs, v):
     """model value vs every implementation path -> list of (key, what)"""
     bad = []
-    vr, vc, (loop_eq, all_b, agree) = v
-    if not (loop_eq and all_b and agree):
+    vr, vc, (loop_eq, all_b, agree, hist_ok), (v0r, v0c) = v
+    if not (loop_eq and all_b and agree and hist_ok):
         bad.append(("com-model-internal", "the Coq model contradicts its own theorems on this instance "
-                    "(looped=vectorised %s, all batch sizes %s, models agree %s)" % (loop_eq, all_b, agree)))
+                    "(looped=vectorised %s, all batch sizes %s, models agree %s, history independent %s)"
+                    % (loop_eq, all_b, agree, hist_ok)))
     model = [[[fr_of(q) for q in row] for row in comp] for comp in (vr, vc)]
+    model0 = [[[fr_of(q) for q in row] for row in comp] for comp in (v0r, v0c)]
     Rn, Cn = case["Rn"], case["Cn"]
 
-    def cmp(name, arr):                               # arr: (2, R, C)
+    def cmp(name, arr, mdl=None):                     # arr: (2, R, C)
+        mdl = model if mdl is None else mdl
         for k in range(2):
             for i in range(Rn):
                 for j in range(Cn):
-                    if not agrees(float(arr[k][i][j]), model[k][i][j]):
+                    if not agrees(float(arr[k][i][j]), mdl[k][i][j]):
                         return ("com-%s-correspondence" % name,
                                 "%s path and the model disagree at component %d, scan (%d,%d): impl %r, model %s"
-                                % (name, k, i, j, float(arr[k][i][j]), model[k][i][j]))
+                                % (name, k, i, j, float(arr[k][i][j]), mdl[k][i][j]))
         return None
+
+    # per step of the call history (model: com_history (com_step ..) = the per-call value on the
+    # original array)
+    for k, (label, cm, _) in enumerate(obs.get("history", [])):
+        b = cmp("history", cm, model if "(mask)" in label else model0)
+        if b:
+            bad.append((b[0], "step %d (%s): %s" % (k + 1, label, b[1])))
+            break
 
     for name, arr in [("vectorised", obs["vec"]), ("looped", obs["loop"])] + (
             [("vectorised", obs["vec_pre"]), ("looped", obs["loop_pre"])] if "vec_pre" in obs else []):
@@ -321,10 +441,16 @@ def check_com(ctx: Ctx):
         n = case["Rn"] * case["Cn"]
         ctx.dist("com/scan=%s" % ("1x1" if n == 1 else "square" if case["Rn"] == case["Cn"] else "non-square"))
         ctx.dist("com/detector=%s" % ("square" if case["H"] == case["W"] else "non-square"))
-        ctx.dist("com/mask=%s" % ("yes" if case["mask"] is not None else "no"))
+        ctx.dist("com/mask=%s" % (case.get("mask_kind", "binary") if case["mask"] is not None else "no"))
+        ctx.dist("com/dataset_dtype=%s" % case.get("dtype", "float32"))
+        if case["mask"] is not None:
+            dead_r = [i for i, row in enumerate(case["mask"]) if not any(row)]
+            dead_c = [j for j in range(case["W"]) if not any(row[j] for row in case["mask"])]
+            if any(0 < i < case["H"] - 1 for i in dead_r) or any(0 < j < case["W"] - 1 for j in dead_c):
+                ctx.dist("com/mask_has_interior_dead_row_or_column")
         ctx.dist("com/total=%s" % ("pow2(exact)" if case["pow2"] else "general(rounded)"))
         ctx.dist("com/batch_sizes_run", n + 2)
-        ref_r, ref_c = reference_com(case["I4"], case["mask"])
+        ref_r, ref_c = reference_com(case["I4"], mask_array(case))
         asym = bool(np.any(np.abs(ref_r - ref_c) > 1e-3))
         ctx.count(("com", json.dumps(case, sort_keys=True)), nontrivial=asym and case["H"] != case["W"])
         for key, what in com_oracle(case, obs):
@@ -332,7 +458,7 @@ def check_com(ctx: Ctx):
     vals = coq_vals(ctx, "com", exprs, 8)
     nd = 0
     for case, obs, v in zip(cases, obs_all, vals):
-        ctx.cov["traces_validated_against_impl"] += len(obs["origin"]) + len(obs) - 1
+        ctx.cov["traces_validated_against_impl"] += len(obs["origin"]) + len(obs) - 2 + len(obs["history"])
         bad = com_correspond(case, obs, v)
         orc = com_oracle(case, obs) if bad else []
         for key, what in bad:
@@ -407,10 +533,118 @@ def run_origin_fit(origins, method, positions, shape):
     return om.origin_fitted.detach().cpu().numpy().copy(), rec.log
 
 
+FAMILY_RANK = {"const": 0, "plane": 1, "parabola": 2, "bezier_two": 3}
+FAMILY_NPAR = {"plane": 3, "parabola": 6, "bezier_two": 9}
+
+
+def gen_lsq_case(r):
+    """fit_origin(fit_function=ff) for EVERY curve_fit family, on data that lie exactly on a constant, a
+    plane, or a surface of the family itself (dyadic coefficients: the data are exact in float64)"""
+    ff = r.choice(["plane", "parabola", "parabola", "bezier_two", "bezier_two"])
+    while True:
+        Rn, Cn = r.choice([(2, 3), (3, 2), (2, 2), (3, 4), (4, 3), (2, 5), (4, 4), (3, 5), (3, 3), (1, 4), (5, 2)])
+        if Rn * Cn >= FAMILY_NPAR[ff]:        # scipy's curve_fit (lm) needs #points >= #parameters
+            break
+    fam = r.choice([f for f in ("const", "plane", "plane", ff) if FAMILY_RANK[f] <= FAMILY_RANK[ff]])
+    npar = 1 if fam == "const" else FAMILY_NPAR[fam]
+    coef = [[str(Fraction(r.randint(-8, 8), 16)) for _ in range(npar)] for _ in range(2)]
+    for cc in coef:
+        cc[0 if fam in ("const", "parabola") else (2 if fam == "plane" else 4)] = str(Fraction(r.randint(32, 64), 16))
+    return {"kind": "fit", "sub": "lsq", "ff": ff, "family": fam, "Rn": Rn, "Cn": Cn, "coef": coef}
+
+
+def family_values(fam, coef, Rn, Cn):
+    """exact values of the surface on the (r, c) index grid (the argument order of the implementation's
+    _plane / _parabola / _bezier_two)"""
+    c = [Fraction(x) for x in coef]
+    out = [[None] * Cn for _ in range(Rn)]
+    for i in range(Rn):
+        for j in range(Cn):
+            x, y = Fraction(i), Fraction(j)
+            if fam == "const":
+                v = c[0]
+            elif fam == "plane":
+                v = c[0] * x + c[1] * y + c[2]
+            elif fam == "parabola":
+                c0, cx1, cx2, cy1, cy2, cxy = c
+                v = c0 + cx1 * x + cy1 * y + cx2 * x * x + cy2 * y * y + cxy * x * y
+            else:
+                c00, c01, c02, c10, c11, c12, c20, c21, c22 = c
+                bx = [(1 - x) ** 2, 2 * (1 - x) * x, x * x]
+                by = [(1 - y) ** 2, 2 * (1 - y) * y, y * y]
+                k = [[c00, c01, c02], [c10, c11, c12], [c20, c21, c22]]
+                v = sum(k[a][b] * bx[a] * by[b] for a in range(3) for b in range(3))
+            out[i][j] = v
+    return out
+
+
+def lsq_case_run(ctx: Ctx, case):
+    import warnings
+    from quantem.diffractive_imaging import ptycho_utils as pu
+    Rn, Cn, ff, fam = case["Rn"], case["Cn"], case["ff"], case["family"]
+    bad = []
+    exact = [family_values(fam, case["coef"][k], Rn, Cn) for k in range(2)]
+    g = [np.array([[float(v) for v in row] for row in exact[k]]) for k in range(2)]
+    assert all(Fraction(float(v)) == v for k in range(2) for row in exact[k] for v in row)
+    with warnings.catch_warnings():
+        warnings.simplefilter("ignore")       # OptimizeWarning: covariance not estimated (exact data)
+        fr, fc, rr, rc_ = pu.fit_origin((g[0], g[1]), mask=np.ones((Rn, Cn), bool), fit_function=ff)
+    scale = max(1.0, float(np.abs(g[0]).max()), float(np.abs(g[1]).max()))
+    err = max(float(np.abs(fr - g[0]).max()), float(np.abs(fc - g[1]).max()))
+    ctx.cov["lsq_fit_max_rel_err"] = max(ctx.cov.get("lsq_fit_max_rel_err", 0.0), err / scale)
+    if not err <= TOL_LSQ * scale:
+        bad.append(("plane-fit-fit_origin" if (ff, fam) == ("plane", "plane") else "lsq-fit-%s-on-%s" % (ff, fam),
+                    "fit_origin(fit_function=%r) of data lying exactly on a %s surface (coefficients %s, %dx%d scan) "
+                    "deviates from it by %g" % (ff, fam, case["coef"], Rn, Cn, err)))
+    if not (np.allclose(rr, g[0] - fr) and np.allclose(rc_, g[1] - fc)):
+        bad.append(("lsq-fit-residuals", "fit_origin residuals are not data - fit"))
+    # tie of the model's families to the implementation's: plane_fn / parabola_fn / bezier2_fn against
+    # _plane / _parabola / _bezier_two at fresh dyadic parameters (exact in float64), and the explicit
+    # re-parametrisations of C18_family_inclusions on this grid
+    r = ctx.rng
+    pp = [Fraction(r.randint(-16, 16), 8) for _ in range(3)]
+    pq = [Fraction(r.randint(-16, 16), 8) for _ in range(6)]
+    pb = [Fraction(r.randint(-16, 16), 8) for _ in range(9)]
+    ri, ci = np.indices((Rn, Cn))
+    rcg = np.vstack((ri.reshape(1, -1), ci.reshape(1, -1)))
+    impl = [np.asarray(f(rcg, *[float(t) for t in prm]), dtype=np.float64).reshape(Rn, Cn)
+            for f, prm in ((pu._plane, pp), (pu._parabola, pq), (pu._bezier_two, pb))]
+    # model argument orders: plane (mx, my, b); parabola (c0, cx1, cx2, cy1, cy2, cxy);
+    # bezier ((c00,c01,c02),(c10,c11,c12),(c20,c21,c22)) = the implementation's positional order
+    from ..common import cnat
+    expr = "fam_case (%s, %s, %s) (%s, %s, %s, %s, %s, %s) ((%s, %s, %s), (%s, %s, %s), (%s, %s, %s)) %s %s" % (
+        tuple(cq(t) for t in pp) + tuple(cq(t) for t in pq) + tuple(cq(t) for t in pb) + (cnat(Rn), cnat(Cn)))
+
+    def post(v):
+        out = []
+        gp, gq, gb, (inc1, inc2) = v
+        if not (inc1 and inc2):
+            out.append(("lsq-model-internal", "family re-parametrisation fails on this grid (%s, %s)" % (inc1, inc2)))
+        for name, grid, arr in (("plane", gp, impl[0]), ("parabola", gq, impl[1]), ("bezier_two", gb, impl[2])):
+            for i in range(Rn):
+                for j in range(Cn):
+                    if Fraction(float(arr[i, j])) != fr_of(grid[i][j]):
+                        out.append(("fit-family-correspondence", "_%s at (r, c) = (%d, %d) is %r but the model family "
+                                    "gives %s" % (name, i, j, float(arr[i, j]), fr_of(grid[i][j]))))
+                        break
+                else:
+                    continue
+                break
+        ctx.cov["traces_validated_against_impl"] += 4
+        return out
+    return bad, expr, post
+
+
 def gen_fit_case(r):
     Rn, Cn = r.choice([(2, 3), (3, 2), (2, 2), (3, 4), (4, 3), (2, 5), (4, 4), (3, 5)])
-    kind = r.choice(["const", "const", "plane", "plane", "plane", "plane_pos", "e2e_plane", "e2e_const"])
+    kind = r.choice(["const", "const", "plane", "plane", "plane", "plane_pos", "e2e_plane", "e2e_plane", "e2e_const"])
     case = {"kind": "fit", "sub": kind, "Rn": Rn, "Cn": Cn}
+    if kind == "e2e_plane":
+        # every fit function _set_intensities_com hands to curve_fit, on CoM lying exactly on planes
+        case["ff"] = r.choice(["plane", "plane", "parabola", "bezier_two"])
+        while Rn * Cn < FAMILY_NPAR[case["ff"]]:
+            Rn, Cn = r.choice([(3, 4), (4, 3), (2, 5), (4, 4), (3, 5)])
+        case["Rn"], case["Cn"] = Rn, Cn
     if kind in ("const", "e2e_const"):
         case["k"] = [str(dyadic(r, 1, 4, 16)), str(dyadic(r, 1, 4, 16))]
     else:
@@ -447,6 +681,8 @@ def fit_case_run(ctx: Ctx, case):
     sub = case["sub"]
     bad = []
     H, W = 7, 6
+    if sub == "lsq":
+        return lsq_case_run(ctx, case)
     if sub == "const":
         k = [_F(x) for x in case["k"]]
         fitted, _ = run_origin_fit([[float(k[0]), float(k[1])]] * n, "constant", None, (Rn, Cn, H, W))
@@ -513,16 +749,21 @@ def fit_case_run(ctx: Ctx, case):
         for i, (a, b) in enumerate(vals):
             I4[i // Cn, i % Cn] = np.outer(profile_with_com(H, a), profile_with_com(W, b))
         ref = fvals.T.reshape(2, Rn, Cn)
+        ff = case.get("ff", "plane")
         for vec in (True, False):
-            cm, cf = run_dataset_model(I4, None, vec, fit_function="plane")
+            import warnings
+            with warnings.catch_warnings():
+                warnings.simplefilter("ignore")
+                cm, cf = run_dataset_model(I4, None, vec, fit_function=ff)
             if not np.array_equal(cm.astype(np.float64), ref):
                 bad.append(("com-vectorised-value" if vec else "com-looped-vs-vectorised",
                             "_set_intensities_com(vectorized_calculation=%s): patterns built with CoM exactly on the planes "
                             "(row; col) %s but com_measured - plane = %g" % (vec, case["coef"], np.abs(cm - ref).max())))
             # the fit clause proper: the measured origins lie on planes, the fit must return them
             if not np.all(np.abs(cf.astype(np.float64) - cm) <= TOL_LSQ * np.maximum(1, np.abs(cm))):
-                bad.append(("plane-fit-dataset-model", "_set_intensities_com(fit_function='plane', vectorized=%s): measured "
-                            "origins lie exactly on planes but com_fit - com_measured = %g" % (vec, np.abs(cf - cm).max())))
+                bad.append(("plane-fit-dataset-model" if ff == "plane" else "plane-fit-dataset-model-%s" % ff,
+                            "_set_intensities_com(fit_function=%r, vectorized=%s): measured "
+                            "origins lie exactly on planes but com_fit - com_measured = %g" % (ff, vec, np.abs(cf - cm).max())))
         from quantem.diffractive_imaging.origin_models import CenterOfMassOriginModel
         om = CenterOfMassOriginModel.from_dataset(_dataset(I4))
         om.calculate_origin(r_batch(ctx, n)).fit_origin_background(fit_method="plane")
@@ -591,12 +832,20 @@ def check_fits(ctx: Ctx):
     cases = [dict(c) for c in _corpus().get("fit", [])]
     for _ in range(ctx.budget(60, 800)):
         cases.append(gen_fit_case(r))
+    for _ in range(ctx.budget(40, 500)):
+        cases.append(gen_lsq_case(r))
     exprs, posts, owners = [], [], []
     failed = {}
     for ci, case in enumerate(cases):
         bad, expr, post = fit_case_run(ctx, case)
         ctx.dist("fit/%s" % case["sub"])
-        ctx.count(("fit", json.dumps(case, sort_keys=True)), nontrivial=case["sub"] != "const" or case["k"][0] != case["k"][1])
+        if case["sub"] == "lsq":
+            ctx.dist("fit/lsq/%s-on-%s" % (case["ff"], case["family"]))
+        if case["sub"] == "e2e_plane":
+            ctx.dist("fit/e2e_plane/fit_function=%s" % case.get("ff", "plane"))
+        ctx.count(("fit", json.dumps(case, sort_keys=True)), nontrivial=case["sub"] not in ("const", "lsq") or
+                  (case["sub"] == "const" and case["k"][0] != case["k"][1]) or
+                  (case["sub"] == "lsq" and case["coef"][0] != case["coef"][1]))
         failed[ci] = bool(bad)
         for key, what in bad:
             ctx.violation(key, what, dict(case), found_input=not key.startswith("plane-eigh-contract") or key.endswith("+fit"))
@@ -611,22 +860,43 @@ def check_fits(ctx: Ctx):
             nd += 1
             ctx.cov["disagreements_checked"] += 1
             ctx.violation(key, "model and implementation disagree: " + what, dict(cases[ci]), found_input=failed[ci])
-    ctx.log("fits: %d cases (%d with a model evaluation), %d disagreements; max plane-fit error %.3g"
-            % (len(cases), len(exprs), nd, ctx.cov.get("plane_fit_max_err", 0.0)))
+    ctx.log("fits: %d cases (%d with a model evaluation), %d disagreements; max plane-fit error %.3g; max relative "
+            "curve_fit error on exact data %.3g" % (len(cases), len(exprs), nd, ctx.cov.get("plane_fit_max_err", 0.0),
+                                                    ctx.cov.get("lsq_fit_max_rel_err", 0.0)))
 
 
 # ------------------------------------------------------------------------------------------
 # shift
 
-def gen_shift_case(r):
-    H, W = r.choice([(2, 3), (3, 2), (3, 5), (5, 3), (5, 9), (4, 6), (6, 4), (3, 7), (7, 5), (2, 9), (4, 4), (5, 5), (9, 2)])
+SHIFT_DETS = [(2, 3), (3, 2), (3, 5), (5, 3), (5, 9), (4, 6), (6, 4), (3, 7), (7, 5), (2, 9), (4, 4), (5, 5), (9, 2)]
+# "all detector shapes": a dimension of 1 (line detector, single pixel)
+SHIFT_DETS_UNIT = [(1, 4), (4, 1), (1, 1), (1, 7), (6, 1)]
+
+
+def gen_shift_case(r, unit=False):
+    H, W = r.choice(SHIFT_DETS_UNIT if unit else SHIFT_DETS)
     Rn, Cn = r.choice([(1, 2), (2, 3), (3, 2), (2, 2), (1, 5), (3, 3)])
     n = Rn * Cn
     pats = [[[r.randint(1, 250) for _ in range(W)] for _ in range(H)] for _ in range(n)]
     org = [[r.randint(-2 * H, 2 * H), r.randint(-2 * W, 2 * W)] for _ in range(n)]
     coord = r.choice([[0, 0], [0, 0], [r.randint(0, H - 1), r.randint(0, W - 1)], [r.randint(-3, 12), r.randint(-3, 12)]])
     return {"kind": "shift", "sub": "direct", "Rn": Rn, "Cn": Cn, "H": H, "W": W, "pats": pats, "org": org, "coord": coord,
+            "mode": r.choice(["bilinear", "bilinear", "bilinear", "nearest", "bicubic"]),
             "batches": sorted({1, n, r.randint(1, n + 1)}) + [None]}
+
+
+def gen_fshift_case(r):
+    """non-integer origins (multiples of 1/den): OUTSIDE the property's claim, compared with the model
+    only (C18_shift_general_exact) and never judged by the oracle"""
+    H, W = r.choice(SHIFT_DETS)
+    Rn, Cn = r.choice([(1, 2), (2, 2), (1, 3)])
+    n = Rn * Cn
+    den = r.choice([2, 4, 4, 8])
+    pats = [[[r.randint(1, 250) for _ in range(W)] for _ in range(H)] for _ in range(n)]
+    org = [[r.randint(-2 * H * den, 2 * H * den), r.randint(-2 * W * den, 2 * W * den)] for _ in range(n)]
+    coord = r.choice([[0, 0], [r.randint(0, H - 1), r.randint(0, W - 1)]])
+    return {"kind": "shift", "sub": "fractional", "Rn": Rn, "Cn": Cn, "H": H, "W": W, "pats": pats, "org": org,
+            "den": den, "coord": coord, "mode": "bilinear", "batches": [r.choice([1, n, None])]}
 
 
 def shift_impl(case, all_batches=False):
@@ -635,10 +905,10 @@ def shift_impl(case, all_batches=False):
     Rn, Cn, H, W = case["Rn"], case["Cn"], case["H"], case["W"]
     n = Rn * Cn
     om = CenterOfMassOriginModel.from_dataset(_dataset(np.array(case["pats"], dtype=np.float32).reshape(Rn, Cn, H, W)))
-    om.origin_fitted = torch.tensor(np.array(case["org"], dtype=np.float32))
+    om.origin_fitted = torch.tensor(np.array(case["org"], dtype=np.float64) / case.get("den", 1)).float()
     out = {}
     for b in (list(range(1, n + 2)) + [None] if all_batches else case["batches"]):
-        om.shift_origin_to(tuple(case["coord"]), b)
+        om.shift_origin_to(tuple(case["coord"]), b, case.get("mode", "bilinear"))
         out[b] = om.shifted_tensor.detach().cpu().numpy().reshape(n, H, W).copy()
     return out
 
@@ -656,19 +926,31 @@ def pow2(k):
 
 def shift_oracle(case, obs):
     bad = []
+    if case.get("sub") == "fractional":
+        return bad                      # the property speaks about integer-valued origins only
     ref = shift_reference(case)
-    exact = pow2(case["H"] - 1) and pow2(case["W"] - 1)
-    tol = 0.0 if exact else TOL_SHIFT_REL * float(np.max(ref))
+    mode = case.get("mode", "bilinear")
+    # a dimension of 1 has the single coordinate 0: nothing rounds along it
+    exact = mode == "nearest" or all(pow2(k - 1) or k == 1 for k in (case["H"], case["W"]))
+    tol = 0.0 if exact else TOL_SHIFT_REL * (4 if mode == "bicubic" else 1) * float(np.max(ref))
     first = None
     for b, out in obs.items():
         if first is None:
             first = out
+        if min(case["H"], case["W"]) == 1 and not np.all(np.isfinite(out)):
+            bad.append(("shift-unit-dimension-nan",
+                        "shift_origin_to(%s, max_batch_size=%s) on a %d x %d detector with integer origins %s returns "
+                        "non-finite values (%d of %d entries; 2*s/(size-1) with size = 1), the circular roll is %s"
+                        % (tuple(case["coord"]), b, case["H"], case["W"], case["org"][:2],
+                           int(np.sum(~np.isfinite(out))), out.size, ref[0].tolist())))
+            break
         err = float(np.max(np.abs(out.astype(np.float64) - ref)))
         if not err <= tol:
             i = int(np.argmax(np.abs(out.astype(np.float64) - ref).reshape(len(ref), -1).max(axis=1)))
-            bad.append(("shift-not-roll", "shift_origin_to(%s, max_batch_size=%s) with integer origin %s is not the circular "
+            bad.append(("shift-unit-dimension-not-roll" if min(case["H"], case["W"]) == 1 else "shift-not-roll",
+                        "shift_origin_to(%s, max_batch_size=%s, mode=%r) with integer origin %s is not the circular "
                         "roll by %s of pattern %d: max |diff| = %g (tolerance %g); got %s, roll %s" % (
-                            tuple(case["coord"]), b, case["org"][i],
+                            tuple(case["coord"]), b, mode, case["org"][i],
                             (-(case["org"][i][0] - case["coord"][0]), -(case["org"][i][1] - case["coord"][1])), i, err, tol,
                             out[i].tolist(), ref[i].tolist())))
             break
@@ -682,6 +964,8 @@ def shift_expr(case):
     from ..common import cnat
     cy, cx = case["coord"]
     pats = "[" + "; ".join("(%s, %s, %s%%Z)" % (cz(oy), cz(ox), c2(p)) for p, (oy, ox) in zip(case["pats"], case["org"])) + "]"
+    if case.get("sub") == "fractional":
+        return "fshift_case %s %s %d%%positive %s %s %s" % (cnat(case["H"]), cnat(case["W"]), case["den"], cz(cy), cz(cx), pats)
     return "shift_case %s %s %s %s %s" % (cnat(case["H"]), cnat(case["W"]), cz(cy), cz(cx), pats)
 
 
@@ -690,7 +974,9 @@ def shift_correspond(case, obs, v):
     mats, is_roll = v
     if not is_roll:
         bad.append(("shift-model-internal", "the Coq grid model is not the roll on this instance"))
-    exact = pow2(case["H"] - 1) and pow2(case["W"] - 1)
+    if case.get("mode", "bilinear") != "bilinear":
+        return bad                      # the model is the bilinear sampler; other modes: oracle only
+    exact = all(pow2(k - 1) or k == 1 for k in (case["H"], case["W"]))
     model = np.array([[[float(fr_of(q)) for q in row] for row in m] for m in mats])
     tol = 0.0 if exact else TOL_SHIFT_REL * float(np.max(model))
     for b, out in obs.items():
@@ -731,11 +1017,18 @@ def check_shift(ctx: Ctx):
     cases = [dict(c) for c in _corpus().get("shift", [])]
     for _ in range(ctx.budget(40, 600)):
         cases.append(gen_shift_case(r))
+    for _ in range(ctx.budget(8, 100)):
+        cases.append(gen_shift_case(r, unit=True))
     for _ in range(ctx.budget(8, 80)):
         cases.append(e2e_shift_case(r))
+    for _ in range(ctx.budget(12, 150)):
+        cases.append(gen_fshift_case(r))
     obs_all, exprs = [], []
+    frac = {"cases": 0, "model_agrees": 0, "seam_theorem_instances_ok": 0, "max_rel_dev": 0.0}
     for i, case in enumerate(cases):
-        if case["sub"] == "forward":
+        if case["sub"] == "fractional":
+            obs = shift_impl(case)
+        elif case["sub"] == "forward":
             obs, of = shift_forward_impl(case)
             if not np.array_equal(of, np.array(case["org"], dtype=np.float32)):
                 ctx.violation("const-fit-origin-model", "forward(): patterns symmetric about the detector centre %s but the "
@@ -745,7 +1038,9 @@ def check_shift(ctx: Ctx):
         obs_all.append(obs)
         exprs.append(shift_expr(case))
         ctx.dist("shift/%s" % case["sub"])
-        ctx.dist("shift/detector=%s" % ("exact(size-1 pow2)" if pow2(case["H"] - 1) and pow2(case["W"] - 1) else "rounded"))
+        ctx.dist("shift/mode=%s" % case.get("mode", "bilinear"))
+        ctx.dist("shift/detector=%s" % ("unit dimension" if min(case["H"], case["W"]) == 1 else
+                                        "exact(size-1 pow2)" if pow2(case["H"] - 1) and pow2(case["W"] - 1) else "rounded"))
         ctx.dist("shift/wraps=%s" % ("yes" if any(not (0 <= o[0] - case["coord"][0] < case["H"]) for o in case["org"]) else "no"))
         ctx.count(("shift", json.dumps(case, sort_keys=True)),
                   nontrivial=case["H"] != case["W"] and any((o[0] - case["coord"][0]) % case["H"] or
@@ -755,6 +1050,19 @@ def check_shift(ctx: Ctx):
     vals = coq_vals(ctx, "shift", exprs, 6)
     nd = 0
     for case, obs, v in zip(cases, obs_all, vals):
+        if case["sub"] == "fractional":
+            # informational only: the property does not constrain non-integer shifts, so a change of
+            # the seam treatment is not a violation; the evidence records whether the theorem
+            # C18_shift_general_exact still describes the code
+            frac["cases"] += 1
+            model = np.array([[[float(fr_of(q)) for q in row] for row in m] for m, _ in v])
+            out = list(obs.values())[0].astype(np.float64)
+            dev = float(np.max(np.abs(out - model))) / 250.0 if np.all(np.isfinite(out)) else float("inf")
+            frac["max_rel_dev"] = max(frac["max_rel_dev"], dev)
+            frac["model_agrees"] += dev <= TOL_SHIFT_REL
+            frac["seam_theorem_instances_ok"] += all(ok for _, ok in v)
+            ctx.dist("shift/fractional_model_%s" % ("agrees" if dev <= TOL_SHIFT_REL else "DISAGREES(informational)"))
+            continue
         ctx.cov["traces_validated_against_impl"] += len(obs)
         bad = shift_correspond(case, obs, v)
         orc = shift_oracle(case, obs) if bad else []
@@ -765,7 +1073,8 @@ def check_shift(ctx: Ctx):
     c0 = cases[0]
     ctx.sample({"kind": "shift", "case": {k: c0[k] for k in ("H", "W", "coord")}, "origin": c0["org"][0],
                 "pattern": c0["pats"][0], "impl": list(obs_all[0].values())[0][0].tolist()})
-    ctx.log("shift: %d cases, %d disagreements" % (len(cases), nd))
+    ctx.cov["fractional_shift_informational"] = frac
+    ctx.log("shift: %d cases, %d disagreements; non-integer shifts (informational): %s" % (len(cases), nd, frac))
 
 
 # ------------------------------------------------------------------------------------------
@@ -822,13 +1131,15 @@ def replay(ctx: Ctx, path):
     if kind == "com":
         obs = com_impl(rp)
         bad = com_oracle(rp, obs)
-        ref_r, ref_c = reference_com(rp["I4"], rp["mask"])
+        ref_r, ref_c = reference_com(rp["I4"], mask_array(rp))
         print("input: scan %dx%d detector %dx%d mask=%s" % (rp["Rn"], rp["Cn"], rp["H"], rp["W"], rp["mask"]))
         print("I4 =", rp["I4"])
         print("float64 reference (row; col):", ref_r.tolist(), ref_c.tolist())
         print("vectorised com_measured:", obs["vec"].tolist())
         print("looped     com_measured:", obs["loop"].tolist())
         print("origin model (b=1):", obs["origin"][1].T.tolist())
+        for label, cm, untouched in obs["history"]:
+            print("history on one array: %-22s com_measured = %s   caller's array unchanged: %s" % (label, cm.tolist(), untouched))
         v = coq_vals(ctx, "replay", [com_expr(rp)], 1)[0]
         print("model (row; col):", [[str(fr_of(q)) for row in comp for q in row] for comp in v[:2]])
         for key, what in bad:
